@@ -16,7 +16,7 @@ from checks import wave_common as W
 PROP = 'C05'
 LEVEL = 'exploration'
 RULE = ('family circuits (T1 wave subset, T2 slice, T3 small, T4, T5) x ALL stimuli over {0,1,R,F}^n with transition times from {1,3} x delay plans (unit, zero, four-valued, '
-        'deviating lines) x capacities {16, 4} x {c_reuse} x {strip_forks} on both simulators; oracle: s[3]/s[6] == initial/final component of the 8-valued result at every output and '
+        'deviating lines) x capacities {16, 4, per line: 4 on the lines whose index is a port position and 16 elsewhere} x {c_reuse} x {strip_forks} on both simulators; oracle: s[3]/s[6] == initial/final component of the 8-valued result at every output and '
         'state element, in the first clock cycle and (circuits with state elements, settled capture) in a second one that both simulators derive themselves with s_ppo_to_ppi; plain 0/1 => s[4]==TMAX, s[5]==TMIN and no finite entry in the waveform (every line when memory reuse is off); '
         'distinct_nontrivial = distinct (case, 8-valued output vector) signatures containing at least one R/F/P/N')
 ASSUMPTIONS = ['LogicSim(m=8) is tied to the documented algebra by C02; here the two real implementations are compared with each other',
@@ -41,8 +41,9 @@ def run_task(task):
         for pi, plan in enumerate(plans):
             for oi, opts in enumerate(optsets):
                 if tier == 'quick' and oi % 4 != (idx + pi) % 4: continue
-                for caps in (16, 4):
+                for caps in (16, 4, 'low4'):
                     if tier == 'quick' and caps == 4 and oi % 2: continue
+                    if caps == 'low4' and (opts[1] or (tier == 'quick' and (oi + pi) % 2)): continue      # per-line capacities: not with stripped forks (branches share the stem)
                     case = {'nl': nl.to_json(), 'style': si, 'plan': plan, 'caps': caps, 'opts': list(opts)}
                     try:
                         check_case(res, case)
@@ -74,7 +75,11 @@ def check_case(res, case):
     nv = nl.n_in + len(nl.states)
     n, init, tt, fin = W.stim_for(nv)
     delays = wsim.delay_array(len(c.lines), case['plan'])
-    ws = W.make_sim(c, delays, n, caps=case['caps'], reuse=w_reuse, strip=w_strip)
+    caps = case['caps']
+    if caps == 'low4':      # small capacities exactly on the lines whose index equals a port / state-element position, 16 elsewhere
+        caps = [4 if i < len(c.s_nodes) else 16 for i in range(len(c.lines))] + [4, 4, 4]
+        res.count('per_line_capacities')
+    ws = W.make_sim(c, delays, n, caps=caps, reuse=w_reuse, strip=w_strip)
     ls = LogicSim(c, sims=n, m=8, c_reuse=l_reuse, strip_forks=l_strip)
     if common.h64((case['nl'], case['opts'], case['caps'])) & 1:
         # both simulator objects first process another stimulus (lanes rotated): results must not depend on that history
@@ -143,7 +148,7 @@ def check_case(res, case):
 
 
 def finish(agg, tier):
-    need = ['const_lanes', 'active_lanes', 'full_line_checks', 'cases_with_history', 'second_cycles']
+    need = ['const_lanes', 'active_lanes', 'full_line_checks', 'cases_with_history', 'second_cycles', 'per_line_capacities']
     missing = [k for k in need if not agg.counters.get(k)]
     if missing: raise common.HarnessError(f'vacuity guard: {missing} zero')
     return {}
